@@ -3,6 +3,7 @@
 import copy
 import functools as ft
 from typing import (
+    Any,
     Dict,
     List,
     Mapping,
@@ -385,22 +386,31 @@ class ASTTypeBuilder:
 
         return self.build_type(node.type)
 
+    def _default_value(
+        self, node: _ast.InputValueDefinition, type_: GraphQLType
+    ) -> Any:
+        try:
+            return value_from_ast(node.default_value, lazy(type_))
+        except TypeError as err:
+            # An output type nested in the type of the position.
+            raise SDLError(
+                'Cannot coerce the default value of "%s": %s'
+                % (node.name.value, err),
+                [node],
+            )
+
     def _build_argument(self, node: _ast.InputValueDefinition) -> Argument:
         type_ = self._build_input_position_type(node)
         kwargs = dict(description=_desc(node), node=node)
         if node.default_value is not None:
-            kwargs["default_value"] = value_from_ast(
-                node.default_value, lazy(type_)
-            )
+            kwargs["default_value"] = self._default_value(node, type_)
         return Argument(node.name.value, type_, **kwargs)  # type: ignore
 
     def _build_input_field(self, node: _ast.InputValueDefinition) -> InputField:
         type_ = self._build_input_position_type(node)
         kwargs = dict(description=_desc(node), node=node)
         if node.default_value is not None:
-            kwargs["default_value"] = value_from_ast(
-                node.default_value, lazy(type_)
-            )
+            kwargs["default_value"] = self._default_value(node, type_)
         return InputField(node.name.value, type_, **kwargs)  # type: ignore
 
     def _extend_object_type(self, object_type: ObjectType) -> ObjectType:
